@@ -88,3 +88,28 @@ Proof.
   apply (reads_return_instances (ex_inp false) ex_rc_h _ _ eq_refl eq_refl eq_refl eq_refl (proj1 ex_nocrash) [Osmiles; Oits; Oits]).
   vm_compute. right. left. reflexivity.
 Qed.
+
+(** the default mode from the template (its_list_default_mode): O-H . N >> O . H-N written with an explicit hydrogen, on
+    CH3OH . NH3; the template condition holds (proof/C03_Examples.v, ex_tpl_condition) *)
+Definition ex_r_s : molg := match synrule ex_tpl_x true with Some t => snd t | None => LG [] [] end.
+Definition ex_inp_d : rin := RI false true ex_host_h (synrule ex_tpl_x true) [(ex_m_s, None)] [] ex_ser.
+Example ex_default_mode_hyps :
+  synrule ex_tpl_x true = Some (ex_rc_s, ex_l_s, ex_r_s) /\ hyps_okb ex_inp_d = true /\
+  option_map (fun gs : list its => map (fun g : its => length (gnodes g)) gs) (spec_its ex_inp_d) = Some [4%nat].
+Proof. vm_compute. repeat split. Qed.
+Example ex_default_mode : forall gs g, spec_its ex_inp_d = Some gs -> In g gs ->
+  forall e, elem_count e (fst (its_decompose g)) = elem_count e (snd (its_decompose g)).
+Proof.
+  intros gs g Hs Ig.
+  refine (proj1 (its_list_default_mode ex_inp_d ex_tpl_x ex_rc_s ex_l_s ex_r_s gs eq_refl (proj1 ex_default_mode_hyps)
+            eq_refl _ eq_refl ex_tpl_condition eq_refl eq_refl eq_refl Hs g Ig)).
+  intros k a I. simpl in I. destruct I as [I|[I|[I|[]]]]; inversion I; reflexivity.
+Qed.
+
+(** the matcher-contract form: all hypotheses as one boolean on the example reactors *)
+Example ex_matcher_hyps : matcher_hyps_okb (i_rule (ex_inp false)) ex_host_h (i_calls (ex_inp false)) = true /\
+                          matcher_hyps_okb (i_rule ex_inp_d) ex_host_h (i_calls ex_inp_d) = true /\
+                          left_of_rcb ex_rc_s ex_l_s = true /\ rule_link_okb (synrule ex_tpl_x true) = true.
+Proof. vm_compute. repeat split. Qed.
+Example ex_capstone_matcher : instance_of ex_host_h ex_rc_h ex_T_h'.
+Proof. apply (its_list_sound_matcher (ex_inp false) ex_rc_h _ _ [ex_T_h'] eq_refl (proj1 ex_matcher_hyps) eq_refl). left. reflexivity. Qed.
